@@ -5,13 +5,14 @@
 set -u
 ID=$1; TIER=${2:-quick}
 PROP=${ID%%-*}
-SD=/verif/seeded/$ID
-WT=/tmp/seed-wt-$ID
+VERIF=$(cd "$(dirname "$0")/.." && pwd)
+SD=$VERIF/seeded/$ID
+WT=/tmp/seed-wt-$ID-$$
 OUT=$SD/eval.txt
 : > $OUT
 git -C /repo worktree remove --force $WT >/dev/null 2>&1
 git -C /repo worktree add -q $WT HEAD || { echo "worktree failed" >> $OUT; exit 2; }
-export CARGO_TARGET_DIR=/tmp/seed-target-$PROP   # shared per property to save rebuilds
+export CARGO_TARGET_DIR=/tmp/seed-target-$ID-$$   # shared per property to save rebuilds
 case $PROP in C16|C17) CR=cli; PKG=okane;; C20) CR=golden; PKG=okane-golden;; *) CR=core; PKG=okane-core;; esac
 run_demo() { # $1 label
   if [ -f $SD/demo.rs ]; then
@@ -28,7 +29,8 @@ echo "== test suite with the change" >> $OUT
 (cd $WT && timeout 2400 cargo test --workspace --no-fail-fast --offline 2>&1 | grep -E "^test result" | awk '{p+=$4; f+=$6} END {print "passed", p, "failed", f}') >> $OUT
 echo "== demo with the change" >> $OUT; run_demo mutated >> $OUT 2>&1
 echo "== ./check $PROP --tier $TIER against the changed tree" >> $OUT
-(cd /verif && VERIF_REPO=$WT VERIF_NO_EVIDENCE=1 ./check $PROP --tier $TIER 2>&1 | tail -12) >> $OUT
+(cd $VERIF && VERIF_REPO=$WT VERIF_NO_EVIDENCE=1 ./check $PROP --tier $TIER 2>&1 | tail -12) >> $OUT
 true
 git -C /repo worktree remove --force $WT >/dev/null 2>&1
+rm -rf $CARGO_TARGET_DIR
 tail -14 $OUT
